@@ -584,6 +584,12 @@ func sortKV(keys, vals []value) {
 			vals[j], vals[j-1] = vals[j-1], vals[j]
 		}
 	}
+	if E.mapOrder == 1 {
+		for i, j := 0, len(keys)-1; i < j; i, j = i+1, j-1 {
+			keys[i], keys[j] = keys[j], keys[i]
+			vals[i], vals[j] = vals[j], vals[i]
+		}
+	}
 }
 
 func newOrderedMapIter(m map[value]value) iter {
